@@ -445,6 +445,67 @@ func extractGroup(repo, root string) error {
 		return fmt.Errorf("untranslated: ConsumerGroupConfig.Validate sets no defaults")
 	}
 
+	// consumergroup.go timeoutCoordinator: per method the terms of the deadline `time.Now().Add(<a> + <b> …)` (final selector
+	// names, sorted), and makeConnect: which config field feeds which time-out field of the timeoutCoordinator literal.
+	var deadlineFacts, connectFacts []string
+	for _, d := range gf.Decls {
+		fd, ok := d.(*ast.FuncDecl)
+		if !ok || fd.Body == nil || fd.Recv == nil || len(fd.Recv.List) != 1 {
+			continue
+		}
+		if st, ok := fd.Recv.List[0].Type.(*ast.StarExpr); !ok || sel(st.X) != "timeoutCoordinator" {
+			continue
+		}
+		var terms []string
+		ast.Inspect(fd.Body, func(n ast.Node) bool {
+			c, ok := n.(*ast.CallExpr)
+			if !ok || sel(c.Fun) != "SetDeadline" || len(c.Args) != 1 {
+				return true
+			}
+			if add, ok := c.Args[0].(*ast.CallExpr); ok && sel(add.Fun) == "Add" && len(add.Args) == 1 {
+				var flat func(e ast.Expr)
+				flat = func(e ast.Expr) {
+					if be, ok := e.(*ast.BinaryExpr); ok && be.Op == token.ADD {
+						flat(be.X)
+						flat(be.Y)
+						return
+					}
+					if pe, ok := e.(*ast.ParenExpr); ok {
+						flat(pe.X)
+						return
+					}
+					terms = append(terms, sel(e))
+				}
+				flat(add.Args[0])
+			}
+			return true
+		})
+		if len(terms) > 0 {
+			sort.Strings(terms)
+			for i := range terms {
+				terms[i] = fmt.Sprintf("%q", terms[i])
+			}
+			deadlineFacts = append(deadlineFacts, fmt.Sprintf("(%q, [%s])", fd.Name.Name, strings.Join(terms, ", ")))
+		}
+	}
+	sort.Strings(deadlineFacts)
+	if fd := funcOf(gf, "", "makeConnect"); fd != nil {
+		ast.Inspect(fd.Body, func(n ast.Node) bool {
+			if cl, ok := n.(*ast.CompositeLit); ok && sel(cl.Type) == "timeoutCoordinator" {
+				for _, el := range cl.Elts {
+					if kv, ok := el.(*ast.KeyValueExpr); ok && sel(kv.Key) != "conn" {
+						connectFacts = append(connectFacts, fmt.Sprintf("(%q, %q)", sel(kv.Key), sel(kv.Value)))
+					}
+				}
+			}
+			return true
+		})
+	}
+	sort.Strings(connectFacts)
+	if len(deadlineFacts) == 0 || len(connectFacts) == 0 {
+		return fmt.Errorf("untranslated: no SetDeadline(time.Now().Add(…)) in timeoutCoordinator / no timeoutCoordinator literal in makeConnect")
+	}
+
 	// reader.go (*reader).run: the restart position.  `conn, <start>, err := r.initialize(ctx, <offset>)` is followed by an
 	// assignment `<x> = <start>`: it must be a plain assignment (not a `:=` that shadows) to the function's own offset
 	// parameter, so that the next (re)initialisation starts from where the fetcher stands.
@@ -511,6 +572,8 @@ func extractGroup(repo, root string) error {
 	fmt.Fprintf(&b, "def restartAssign : String × Bool := (%q, %v)\n", restartTok, restartToParam)
 	fmt.Fprintf(&b, "def watcherRange : String := %q\n", watcherRange)
 	fmt.Fprintf(&b, "def coordinatorDial : List String := [%s]\n", strings.Join(coordDial, ", "))
+	fmt.Fprintf(&b, "def coordinatorDeadlines : List (String × List String) := [%s]\n", strings.Join(deadlineFacts, ", "))
+	fmt.Fprintf(&b, "def connectTimeouts : List (String × String) := [%s]\n", strings.Join(connectFacts, ", "))
 	fmt.Fprintf(&b, "def validateDefaults : List (String × String) := [%s]\n", strings.Join(validateDefaults, ", "))
 	fmt.Fprintf(&b, "def fetchVersionFilter : String := %q\n", versionOp)
 	fmt.Fprintf(&b, "def readerGroupOptions : List (String × String) := [%s]\n", strings.Join(optPairs, ", "))
